@@ -53,6 +53,7 @@ def parseAct (s : String) : Option CbAct :=
   | ["cloneArc", k] => do some (.cloneArcTo (← k.toNat?))
   | ["getMut", v] => do some (.getMutWrite (← v.toNat?))
   | ["replace", k] => do some (.replaceWith (← k.toNat?))
+  | ["swap", k] => do some (.swapWith (← k.toNat?))
   | _ => none
 
 def parseBool (s : String) : Option Bool :=
